@@ -54,7 +54,7 @@ def task_invariant_ideal(task):
     n, cfs = _closed_forms(task)
     t0 = time.time()
     ideal = InvariantIdeal(cfs)
-    bases = {str(k): str(v) for k, v in ideal.base_to_symbol.items()}
+    bases = [str(k) for k in ideal.base_to_symbol.keys()]
     basis = ideal.compute_basis()
     names = [g for g, _ in task["closed_forms"]]
     return {"basis": [_poly_json(b, names) for b in basis], "basis_str": sorted(str(b) for b in basis),
@@ -62,28 +62,59 @@ def task_invariant_ideal(task):
 
 
 def task_program_invariants(task):
-    """program text + goals (e.g. ['E(a)', 'E(b)']): the CLI path of `polar.py --goals ... --invariants`:
-    closed forms exactly as GoalsAction computes them, then handle_invariants' InvariantIdeal."""
-    import io
+    """program text + goals (e.g. ['E(a)', 'E(b)']) -> what `polar.py FILE --goals ... --invariants`
+    computes: runs the real CLI path (ArgumentParser -> ActionFactory -> GoalsAction) and observes,
+    by wrapping from this harness process, the closed forms handed to InvariantIdeal and the basis
+    it returns; the printed "Invariants" section is returned too."""
     import contextlib
-    from argparse import Namespace
-    import tempfile
+    import io
     import os
-    from cli.actions.goals_action import GoalsAction
-    from cli.argument_parser import ArgumentParser
+    import re
+    import sys
+    import tempfile
+    import cli.actions.goals_action as ga
+    from cli import ArgumentParser
+    from cli.actions import ActionFactory
+    rec = {}
+    Orig = ga.InvariantIdeal
+
+    class Spy(Orig):
+        def __init__(self, closed_forms):
+            rec["closed_forms"] = [(str(k), v) for k, v in closed_forms.items()]
+            super().__init__(closed_forms)
+
+        def compute_basis(self):
+            rec["exp_bases"] = [str(k) for k in self.base_to_symbol.keys()]
+            b = super().compute_basis()
+            rec["basis"] = list(b)
+            return b
+
     with tempfile.NamedTemporaryFile("w", suffix=".prob", delete=False) as f:
         f.write(task["program"])
         path = f.name
+    old_argv = sys.argv
+    ga.InvariantIdeal = Spy
+    buf = io.StringIO()
+    t0 = time.time()
     try:
-        argv = [path, "--goals"] + list(task["goals"]) + ["--invariants"]
-        ap = ArgumentParser()
-        args = ap.argument_parser.parse_args(argv)
-        args = ap.get_defined_arguments(args) if hasattr(ap, "get_defined_arguments") else args
-        action = GoalsAction(args)
-        buf = io.StringIO()
+        sys.argv = ["polar.py", path, "--goals"] + list(task["goals"]) + ["--invariants"]
+        args = ArgumentParser().parse_args()
+        action = ActionFactory.create_action(args)
         with contextlib.redirect_stdout(buf):
             action(path)
-        text = buf.getvalue()
     finally:
+        ga.InvariantIdeal = Orig
+        sys.argv = old_argv
         os.unlink(path)
-    return {"stdout": text}
+    text = re.sub(r"\x1b\[[0-9;]*m", "", buf.getvalue())
+    printed = []
+    if "Invariants" in text:
+        tail = text[text.index("Invariants"):]
+        printed = [l[:-4].strip() for l in tail.splitlines() if l.strip().endswith("= 0")]
+    if "closed_forms" not in rec:
+        return {"error": "exception", "etype": "NoInvariantIdealCall", "msg": text[-500:]}
+    names = [k for k, _ in rec["closed_forms"]]
+    return {"goal_ids": names, "closed_forms": [[k, str(v)] for k, v in rec["closed_forms"]],
+            "basis": [_poly_json(b, names) for b in rec["basis"]], "basis_str": sorted(str(b) for b in rec["basis"]),
+            "exp_bases": rec.get("exp_bases", []), "printed": sorted(printed), "class": type(action).__name__,
+            "seconds": round(time.time() - t0, 3)}
